@@ -182,12 +182,65 @@ func (c *Check) RequireCallee(fn *ssa.Function, rule, name, calleeKey string) bo
 	return true
 }
 
-// HookRuns: each function of the chain calls the next one on every path to its success exits (a block hook that
-// skips a step silently disables everything the step is responsible for).
+// alwaysCalls: every path from entry to a success exit of fn passes a call that resolves statically to the function with
+// key targetKey, or to a repository function that itself always calls it (depth levels down).
+func (p *Prog) alwaysCalls(fn *ssa.Function, targetKey string, depth int, seen map[*ssa.Function]bool) (bool, ssa.Instruction, ssa.Instruction, []*ssa.BasicBlock) {
+	if seen[fn] || len(fn.Blocks) == 0 {
+		return false, nil, nil, nil
+	}
+	seen[fn] = true
+	defer delete(seen, fn)
+	var matched []ssa.Instruction
+	for _, ci := range callsIn(fn) {
+		if _, isDefer := ci.(*ssa.Defer); isDefer {
+			continue
+		}
+		if _, isGo := ci.(*ssa.Go); isGo {
+			continue
+		}
+		g := ci.Common().StaticCallee()
+		if g == nil {
+			continue
+		}
+		if FuncKey(g) == targetKey {
+			matched = append(matched, ci)
+		} else if depth > 0 && p.isRepoFunc(g) {
+			if ok, _, _, _ := p.alwaysCalls(g, targetKey, depth-1, seen); ok {
+				matched = append(matched, ci)
+			}
+		}
+	}
+	if len(matched) == 0 {
+		return false, nil, nil, nil
+	}
+	ps := &PathSearch{Fn: fn, AvoidInstr: instrSet(matched), IsTarget: successTargets(fn)}
+	if t, path := ps.Find(); t != nil {
+		return false, matched[0], t, path
+	}
+	return true, matched[0], nil, nil
+}
+
+func (p *Prog) isRepoFunc(g *ssa.Function) bool {
+	return g.Pkg != nil && g.Pkg.Pkg != nil && strings.HasPrefix(g.Pkg.Pkg.Path(), modPath+"/") && len(g.Blocks) > 0
+}
+
+// HookRuns: the block hook runs the step on every path to its success exits — directly or through repository functions
+// that always call it (the keeper's hook function in between may be renamed, split or folded into the module hook). A
+// hook that skips a step silently disables everything the step is responsible for.
 func (c *Check) HookRuns(rule string, chain ...string) {
-	for i := 0; i+1 < len(chain); i++ {
-		short := chain[i+1][strings.LastIndex(chain[i+1], ".")+1:]
-		c.RequireCallee(c.p.MustFn(chain[i]), rule, "hook-runs "+short, chain[i+1])
+	hook, target := chain[0], chain[len(chain)-1]
+	fn := c.p.MustFn(hook)
+	c.touch(fn)
+	short := target[strings.LastIndex(target, ".")+1:]
+	construct := "hook-runs " + short + " @ " + hook
+	ok, first, t, path := c.p.alwaysCalls(fn, target, 3, map[*ssa.Function]bool{})
+	switch {
+	case ok:
+		c.Held(rule, construct, c.p.InstrPos(first), "reached on every path to a success exit of the hook")
+	case t != nil:
+		c.Violated(rule, construct, c.p.InstrPos(t), "a path reaches a success exit of the hook without running "+target, c.p.describePath(path)...)
+	default:
+		c.Violated(rule, construct, c.p.Pos(fn.Pos()), "the hook does not run "+target+" on every path to its success exits (looked three calls deep)")
 	}
 }
 
